@@ -62,7 +62,8 @@ small strings  a `str` is the `List Int` of its code points: literals, a `str` p
 REFUSED (examples): floats and `/` (so `int(x / y)`, `math.sqrt`, `0.5` are refused, not guessed),
 other strings (`str`, `chr`, `ord`, slicing, `join`), `while` loops, `for` over anything but `range`,
 `break`/`continue`, other comprehensions, `try`, `with`, attribute access that is not bound, calls of
-anything not translated (`deque`, `itertools`, `numpy`, `math`, logging), bit operators, `is`, starred or
+anything not translated (`itertools`, `numpy`, `math`, logging; `deque` only as a fixed-length tuple with `.rotate`
+and literal indexing; a constructor only when the target's `ctors` table reads it as a tuple), bit operators, `is`, starred or
 nested unpacking, variable exponents, arithmetic on bools, recursion, names that may be unbound,
 expression statements (possible side effects).
 NOT MODELLED (stated, validated only by the differential run): dynamic dispatch (`self.f` is resolved to the
@@ -113,8 +114,9 @@ class Refuse(Exception):
 
 
 class Target:
-    def __init__(self, file, qual, types=None, binds=None):
+    def __init__(self, file, qual, types=None, binds=None, ctors=None):
         self.file, self.qual = file, qual
+        self.ctors = dict(ctors or {})      # class name -> n: `Cls(a1..an, ...)` is translated as the tuple (a1..an)
         self.types = dict(types or {})
         self.binds = dict(binds or {})      # source expression (ast.unparse form) -> (param name, type)
         # a bound expression may be an attribute (`self.z`), a method call (`self._isThroughCenter()`) or a call
@@ -143,7 +145,10 @@ TARGETS = [
     Target("armi/reactor/grids/hexagonal.py", "HexGrid._getSymmetricIdenticalsThird", types={"indices": T3}),
     Target("armi/reactor/grids/hexagonal.py", "HexGrid.isInFirstThird",
            binds={"locator.indices": ("locatorIndices", T3)}, types={"includeTopEdge": BOOL}),
-    Target("armi/reactor/grids/hexagonal.py", "HexGrid.rotateIndex"),
+    Target("armi/reactor/grids/hexagonal.py", "HexGrid.rotateIndex", types={"rotations": INT},
+           binds={"self._roughlyEqual(loc.grid) or loc.grid is None": ("consistent", BOOL), "loc[:3]": ("locIndices", T3)},
+           ctors={"IndexLocation": 3}),
+    Target("armi/reactor/spentFuelPool.py", "SpentFuelPool._getNextLocation"),
     Target("armi/reactor/grids/thetarz.py", "ThetaRZGrid.getRingPos", types={"indices": T3}),
     Target("armi/reactor/grids/thetarz.py", "ThetaRZGrid.getIndicesFromRingAndPos"),
     Target("armi/reactor/grids/cartesian.py", "CartesianGrid.getPositionsInRing",
@@ -622,6 +627,33 @@ class FnTranslator:
         if isinstance(st, ast.Expr):
             if isinstance(st.value, ast.Constant) and isinstance(st.value.value, str):
                 return cont(env)
+            v = st.value
+            if isinstance(v, ast.Call) and isinstance(v.func, ast.Attribute) and v.func.attr == "rotate" \
+                    and isinstance(v.func.value, ast.Name) and env.get(v.func.value.id, ("",))[0] == "inline" \
+                    and getattr(env[v.func.value.id][1], "is_deque", False) and len(v.args) == 1 and not v.keywords:
+                dq = env[v.func.value.id][1]
+                n = len(dq.elts)
+                r, pre = self.with_pre(lambda: self.expr(v.args[0], env))
+                if r.t != INT:
+                    raise Refuse("deque.rotate by a non-int")
+                sh = self.fresh("s")
+                lets = [(sh, f"(Int.fmod (-{r.s}) ({n} : Int))")]
+                names = []
+                for m in range(n):     # deque.rotate(r): new[m] = old[(m - r) mod n] = old[(m + shift) mod n], shift = (-r) mod n
+                    sel = dq.elts[(m + n - 1) % n].s
+                    for k in range(n - 2, -1, -1):
+                        sel = f"(if {sh} = ({k} : Int) then {dq.elts[(m + k) % n].s} else {sel})"
+                    tn = self.fresh("d")
+                    lets.append((tn, sel))
+                    names.append(E(tn, INT))
+                ndq = E("(" + ", ".join(x.s for x in names) + ")", dq.t, elts=names)
+                ndq.is_deque = True
+                env2 = dict(env)
+                env2[v.func.value.id] = ("inline", ndq)
+                ir = cont(env2)
+                for tn, sx in reversed(lets):
+                    ir = self.node(("let", tn, sx, INT, ir))
+                return self.wrap_pre(pre, ir)
             raise Refuse(f"expression statement `{ast.unparse(st)[:60]}` (possible side effect)")
         if isinstance(st, ast.Pass):
             return cont(env)
@@ -774,6 +806,21 @@ class FnTranslator:
             if e.t[0] == "opt":
                 raise Refuse("optional value assigned to a local")
             env2 = dict(env)
+            if getattr(e, "is_deque", False):
+                # bind the components once, carry the deque as the tuple of those names
+                names = []
+                lets = []
+                for c in e.elts:
+                    tn = self.fresh("d")
+                    lets.append((tn, c.s))
+                    names.append(E(tn, INT))
+                dq = E("(" + ", ".join(x.s for x in names) + ")", e.t, elts=names)
+                dq.is_deque = True
+                env2[tgt.id] = ("inline", dq)
+                ir = cont(env2)
+                for tn, sx in reversed(lets):
+                    ir = self.node(("let", tn, sx, INT, ir))
+                return self.wrap_pre(pre, ir)
             if e.t == NONE or (e.t[0] == "list" and e.t[1] is None):
                 # `x = None` / `x = []`: closed values, carried in the environment (typed per path)
                 env2[tgt.id] = ("inline", e)
@@ -826,7 +873,7 @@ class FnTranslator:
         raise Refuse(f"truth value of a {show_type(e.t)}")
 
     def bound(self, node):
-        if isinstance(node, (ast.Attribute, ast.Call, ast.Subscript)):
+        if self.bind_params and isinstance(node, (ast.Attribute, ast.Call, ast.Subscript, ast.BoolOp, ast.Compare)):
             src = ast.unparse(node)
             if src in self.bind_params:
                 ln, t = self.bind_params[src]
@@ -1162,6 +1209,23 @@ class FnTranslator:
         f = node.func
         if any(isinstance(a, ast.Starred) for a in node.args) or any(k.arg is None for k in node.keywords):
             raise Refuse("call with * / ** arguments")
+        # collections.deque of a fixed-length tuple (only .rotate and literal indexing are supported), tuple-like constructors
+        if isinstance(f, ast.Name) and f.id == "deque" and "deque" not in env and "deque" not in self.mod.funcs \
+                and len(node.args) == 1 and not node.keywords:
+            a = self.expr(node.args[0], env)
+            if a.t[0] != "tuple" or not all(x == INT for x in a.t[1]) or a.elts is None:
+                raise Refuse("deque of something other than a literal tuple of ints")
+            e = E(a.s, a.t, elts=a.elts)
+            e.is_deque = True
+            return e
+        if isinstance(f, ast.Name) and f.id in self.tgt.ctors and f.id not in env:
+            n = self.tgt.ctors[f.id]
+            if len(node.args) < n:
+                raise Refuse(f"constructor `{f.id}` with fewer than {n} positional arguments")
+            elts = [self.expr(x, env) for x in node.args[:n]]
+            if any(x.t != INT for x in elts):
+                raise Refuse(f"constructor `{f.id}` of non-int components")
+            return E("(" + ", ".join(x.s for x in elts) + ")", TUP(*[INT] * n), elts=elts)
         # strings: "<template>".format(ints) as a value, "".join(<comprehension over a string>)
         if isinstance(f, ast.Attribute) and isinstance(f.value, ast.Constant) and isinstance(f.value.value, str):
             if f.attr == "format":
